@@ -1,12 +1,15 @@
 (* C11/C12 on the fixed-lock-order domain: non-vacuity of the domain conditions, and the run
-   that shows that `keyed` is NOT an invariant of the domain when a waiter is cancelled
-   (finding F17: PriorityTask.propagate_priority stops at a cancelled waiter that has not run
-   yet). *)
+   of finding F17 (PriorityTask.propagate_priority stopped at a cancelled waiter that has not
+   run yet): with the OLD text of propagate_task (defined below, not in Model.v) `keyed` fails and
+   the lock is handed to the less urgent waiter; in the current (repaired) model the same run
+   re-keys the entry and the hand-over is right. *)
 From Coq Require Import QArith Lqa.
+From RecordUpdate Require Import RecordUpdate.
 From Asynkit Require Import Base.Prelude Queue.PQ Queue.Exec Sched.Model Sched.Corr Sched.LockInv
   Sched.LockLib Sched.LockProofs Sched.LockThms Sched.InheritEprio Sched.InheritHandover Sched.WaitProofs
-  Sched.NoOvertakeRel Sched.NoOvertakeThms.
+  Sched.Tables Sched.InheritFalls Sched.NoOvertakeRel Sched.NoOvertakeThms.
 From Asynkit Require Import Sched.OrderInv Sched.OrderPass Sched.OrderThms.
+Import RecordSetNotations.
 Open Scope nat_scope.
 
 (* a section as the generators of harness/props/c11.py produce it:
@@ -74,18 +77,21 @@ Proof.
   apply (holder_reach_ord est 0 2 1 est_reachable_ord); vm_compute; auto.
 Qed.
 
-(* ------------------------------------------------------------ 2. `keyed` fails on the domain (F17) *)
+(* ------------------------------------------------------------ 2. finding F17 and its repair *)
 (* Three locks, always taken in increasing order.
      O2 (task 0, priority 0)  holds lock 2 across three sleeps;
      O1 (task 1, priority 5)  holds lock 1 and is queued on lock 2: future 3, key 5;
      U  (task 2, priority 7)  holds lock 0 and is queued on lock 1 (future 4);
      T  (task 3, priority -5) cancels U and then queues on lock 0 (held by U);
      W2 (task 4, priority 3)  queues on lock 2 afterwards: future 8, key 3.
-   When T arrives, U is cancelled but has not run yet: propagate_priority(U) sees a runnable
-   task, reschedules it and STOPS.  U is still in lock 1's queue, so effective_priority(O1) is
-   -5 (through U), but O1's entry in lock 2 keeps key 5 and nobody re-keys it.  O2's release
-   hands lock 2 to W2 (key 3) although O1 has been strictly more urgent (-5 < 3) during the
-   whole time both were waiting. *)
+   When T arrives, U is cancelled but has not run yet: it is RUNNABLE and still queued on
+   lock 1, so effective_priority(O1) is -5 (through U).
+   Before the repair propagate_priority(U) rescheduled the runnable U and STOPPED: O1's entry
+   in lock 2 kept key 5, nobody re-keyed it, and O2's release handed lock 2 to W2 (key 3)
+   although O1 had been strictly more urgent (-5 < 3) during the whole time both were waiting.
+   The repaired propagate_priority reschedules U AND passes the notification on through the
+   lock U is still queued on: U's entry in lock 1 and O1's entry in lock 2 are re-keyed to -5
+   and the release wakes O1. *)
 Definition kO2 : script := sect 2 (SDo OSleep0 (SDo OSleep0 (SDo OSleep0 SEnd))) SEnd.
 Definition kO1 : script := sect 1 (sect 2 SEnd SEnd) SEnd.
 Definition kW2 : script := sect 2 SEnd SEnd.
@@ -126,27 +132,227 @@ Qed.
 Example kst12_reachable_ord : reachable_ord kst12.
 Proof. change kst12 with (KT 12). apply reach_prefix. Qed.
 
+(* ---------------------------------------------------------------- 2a. the current (repaired) model *)
+Lemma kst12_arr2 : arr (lpq (getl kst12 2)) = [mkE (-5)%Q 0 3; mkE 3%Q 1 8].
+Proof. vm_compute; reflexivity. Qed.
+
 Example k_facts :
-  (* state 11: T has arrived, W2 not yet; U's future 4 is cancelled, U still queued on lock 1 *)
+  (* state 11: T has arrived, W2 not yet; U's future 4 is cancelled, U still queued on lock 1;
+     U's entry in lock 1 and O1's entry in lock 2 have been re-keyed to -5 *)
   fstate_ (getf kst11 4) = FCancelled /\ lwt (getl kst11 1) = [(4, 2)] /\
-  arr (lpq (getl kst11 2)) = [mkE 5%Q 0 3] /\ Qred (effective_priority kst11 1) = (-5)%Q /\
-  (* state 12: W2 queued with key 3 *)
-  arr (lpq (getl kst12 2)) = [mkE 3%Q 1 8; mkE 5%Q 0 3] /\ lwt (getl kst12 2) = [(3, 1); (8, 4)] /\
+  arr (lpq (getl kst11 1)) = [mkE (-5)%Q 0 4] /\
+  arr (lpq (getl kst11 2)) = [mkE (-5)%Q 0 3] /\ Qred (effective_priority kst11 1) = (-5)%Q /\
+  (* state 12: W2 queued with key 3, behind O1 *)
+  arr (lpq (getl kst12 2)) = [mkE (-5)%Q 0 3; mkE 3%Q 1 8] /\ lwt (getl kst12 2) = [(3, 1); (8, 4)] /\
   fdone kst12 3 = false /\ fdone kst12 8 = false /\
   map (fun t => Qred (effective_priority kst12 t)) [1; 4] = [(-5)%Q; 3%Q] /\
-  (* the release of lock 2 (action 12) completes W2's future; O1's stays pending *)
-  fstate_ (getf kst13 8) = FResult 1 /\ fstate_ (getf kst13 3) = FPending /\
+  (* the release of lock 2 (action 12) completes O1's future; W2's stays pending *)
+  fstate_ (getf kst13 3) = FResult 1 /\ fstate_ (getf kst13 8) = FPending /\
   In 3 (objs kst13 2) /\ In 8 (objs kst13 2).
 Proof. repeat split; vm_compute; auto. Qed.
 
-Example k_not_keyed : ~ keyed kst12 2.
+Example kst12_keyed2 : keyed kst12 2.
 Proof.
-  intros K. specialize (K (mkE 5%Q 0 3)).
-  assert (H : (5 == wprio kst12 (entry_task (getl kst12 2) (mkE 5%Q 0 3)))%Q).
-  { apply K; [vm_compute; tauto|vm_compute; reflexivity]. }
-  vm_compute in H. discriminate.
+  intros e He _. rewrite kst12_arr2 in He. destruct He as [<-|[<-|[]]]; vm_compute; reflexivity.
 Qed.
 
-(* the acyclicity theorem applies to this state as well *)
+Example kst12_before : before kst12 2 (mkE (-5)%Q 0 3) (mkE 3%Q 1 8).
+Proof. left; vm_compute; reflexivity. Qed.
+
+(* the acyclicity theorem applies to this state *)
 Example kst12_ranked : ranked kst12.
 Proof. apply ranked_reachable, kst12_reachable_ord. Qed.
+
+(* ---------------------------------------------------------------- 2b. before the repair (F17) *)
+(* PriorityTask.propagate_priority / PriorityLock.propagate_priority as they were: a runnable task
+   is rescheduled and the notification stops there (`elif self._waiting_on`) *)
+Fixpoint propagate_task_old (fuel : nat) (s : st) (t : nat) : st :=
+  if negb (is_prio_task s t) then s else
+  if task_is_runnable s t then task_reschedule s t
+  else match twaiting (gett s t), fuel with
+       | Some l, S fuel =>
+           let lk := getl s l in
+           let s := match lowner lk with
+                    | Some o => propagate_task_old fuel s o
+                    | None => s end in
+           let p := effective_priority s t in
+           let lk := getl s l in
+           match find (fun pr => Nat.eqb (snd pr) t) (lwt lk) with
+           | Some (f, _) =>
+               match pq_reschedule HQ (lpq lk) (fun o => Nat.eqb (Z.to_nat o) f) p with
+               | Some (_, q') => setl s l (lk <| lpq := q' |>)
+               | None => s
+               end
+           | None => s
+           end
+       | _, _ => s
+       end.
+Definition propagate_priority_old (s : st) (t : nat) : st := propagate_task_old (efuel s) s t.
+
+(* PriorityLock.acquire up to its `await fut` (Model.acquire_p_start), over the old propagate *)
+Definition acquire_p_start_old (s : st) (t l : nat) : st * lres :=
+  let lk := getl s l in
+  if negb (llocked lk) && match arr (lpq lk) with [] => true | _ => false end then
+    match take_lock s l t with
+    | inl s' => (s', LDone (RVal 1))
+    | inr e => (s, LDone (RExc e))
+    end
+  else
+    let had := is_prio_task s t in
+    let p := if had then effective_priority s t else 0%Q in
+    let '(s, f) := new_future s None in
+    if had && match twaiting (gett s t) with Some _ => true | None => false end
+    then (s, LDone (RExc EAssertion))
+    else
+      let s := if had then sett s t (gett s t <| twaiting := Some l |>) else s in
+      let lk := getl s l in
+      let s := setl s l (lk <| lpq := pq_add HQ (lpq lk) p (Z.of_nat f) |>
+                            <| lwt := lwt lk ++ [(f, t)] |>) in
+      let s := match lowner (getl s l) with
+               | Some o => propagate_priority_old s o
+               | None => s end in
+      (setf s f (getf s f <| fblock := true |>), LSusp (YFut f) [InFut f; InAcquireP l f had]).
+
+(* the two versions differ only at a task that is runnable AND still queued on a PriorityLock *)
+Lemma propagate_old_agrees fuel : forall s t,
+  (forall u, task_is_runnable s u = true -> twaiting (gett s u) = None) ->
+  propagate_task fuel s t = propagate_task_old fuel s t.
+Proof.
+  induction fuel as [|fuel IH]; intros s t H; cbn [propagate_task propagate_task_old].
+  - destruct (negb (is_prio_task s t)); [reflexivity|].
+    destruct (task_is_runnable s t) eqn:Er; [|reflexivity].
+    change (gett (task_reschedule s t) t) with (gett s t). rewrite (H t Er). reflexivity.
+  - destruct (negb (is_prio_task s t)); [reflexivity|].
+    destruct (task_is_runnable s t) eqn:Er.
+    + change (gett (task_reschedule s t) t) with (gett s t). rewrite (H t Er). reflexivity.
+    + destruct (twaiting (gett s t)) as [l|]; [|reflexivity].
+      destruct (lowner (getl s l)) as [o|]; [rewrite (IH s o H)|]; reflexivity.
+Qed.
+
+(* The state just before T's arrival.  In `kacts` T calls U.cancel() and acquire(lock 0) in one
+   step; to have the state between the two as a state of a run, the same cancellation is issued
+   from outside (XDo) and T's script is the section alone.  kpre is reachable in the CURRENT
+   model on the fixed-order domain: the next handle in the ready queue is T's first step, U
+   (cancelled, runnable, still queued on lock 1) runs after it. *)
+Definition kT' : script := sect 0 SEnd SEnd.
+Definition kactsX : list action :=
+  map act [XSpawn (SPrio 0) kO2; XStep; XSpawn (SPrio 5) kO1; XSpawn (SPrio 7) kU;
+           XStep; XStep; XStep; XSpawn (SPrio (-5)) kT'; XSpawn (SPrio 3) kW2; XStep; XDo (OCancel 2)].
+Definition kpre : st := Eval vm_compute in fold_left do_action kactsX kst0.
+
+Example kpre_reachable_ord : reachable_ord kpre.
+Proof.
+  exists false, 0%Q, [], [LPrio; LPrio; LPrio], [], 0, kactsX.
+  split; [vm_compute; repeat split|]. split; [vm_compute; repeat split; intros; discriminate|].
+  split; [ord_tac|]. vm_compute. reflexivity.
+Qed.
+Example kpre_ranked : ranked kpre.
+Proof. apply ranked_reachable, kpre_reachable_ord. Qed.
+
+Example kpre_facts :
+  (* U's future 4 is cancelled, U is runnable and still queued on lock 1 (held by O1); O1 is
+     queued on lock 2 (held by O2) with key 5; U holds lock 0; T (task 3) has not started *)
+  fstate_ (getf kpre 4) = FCancelled /\ task_is_runnable kpre 2 = true /\
+  twaiting (gett kpre 2) = Some 1 /\ lwt (getl kpre 1) = [(4, 2)] /\ lwt (getl kpre 2) = [(3, 1)] /\
+  map (fun l => lowner (getl kpre l)) [0; 1; 2] = [Some 2; Some 1; Some 0] /\
+  map (fun l => arr (lpq (getl kpre l))) [0; 1; 2] = [[]; [mkE 7%Q 0 4]; [mkE 5%Q 0 3]] /\
+  map (fun t => Qred (effective_priority kpre t)) [0; 1; 2; 3; 4] = [0%Q; 5%Q; 7%Q; (-5)%Q; 3%Q] /\
+  (* the next handle in the ready queue is T's *)
+  match ready kpre with RList (h :: _) => task_of_handle kpre h = Some 3 | _ => False end /\
+  keyed kpre 0 /\ keyed kpre 1 /\ keyed kpre 2.
+Proof.
+  do 9 (split; [vm_compute; reflexivity|]).
+  assert (E0 : arr (lpq (getl kpre 0)) = []) by (vm_compute; reflexivity).
+  assert (E1 : arr (lpq (getl kpre 1)) = [mkE 7%Q 0 4]) by (vm_compute; reflexivity).
+  assert (E2 : arr (lpq (getl kpre 2)) = [mkE 5%Q 0 3]) by (vm_compute; reflexivity).
+  split; [|split].
+  - intros e He _. rewrite E0 in He. destruct He.
+  - intros e He _. rewrite E1 in He. destruct He as [<-|[]]; vm_compute; reflexivity.
+  - intros e He _. rewrite E2 in He. destruct He as [<-|[]]; vm_compute; reflexivity.
+Qed.
+
+(* T's acquire(lock 0) with the old text, in the reachable state kpre; then W2's acquire(lock 2) *)
+Definition kold11 : st := fst (acquire_p_start_old kpre 3 0).
+Definition kold12 : st := fst (acquire_p_start_old kold11 4 2).
+(* ... and T's acquire(lock 0) with the current one *)
+Definition knew11 : st := fst (acquire_p_start kpre 3 0).
+
+Lemma kold11_def : kold11 = fst (acquire_p_start_old kpre 3 0).
+Proof. reflexivity. Qed.
+Lemma kold12_def : kold12 = fst (acquire_p_start_old kold11 4 2).
+Proof. reflexivity. Qed.
+Lemma knew11_def : knew11 = fst (acquire_p_start kpre 3 0).
+Proof. reflexivity. Qed.
+
+Lemma kold12_arr2 : arr (lpq (getl kold12 2)) = [mkE 3%Q 1 8; mkE 5%Q 0 3].
+Proof. vm_compute; reflexivity. Qed.
+
+(* the wait-for graph of kold12 is the chain T -> U -> O1 -> O2 <- W2 *)
+Lemma kold12_graph :
+  (tholding (gett kold12 0) = [2] /\ tholding (gett kold12 1) = [1] /\
+   tholding (gett kold12 2) = [0] /\ tholding (gett kold12 3) = [] /\ tholding (gett kold12 4) = []) /\
+  (lock_waiter_tasks (getl kold12 0) = [3] /\ lock_waiter_tasks (getl kold12 1) = [2] /\
+   lock_waiter_tasks (getl kold12 2) = [4; 1]) /\
+  efuel kold12 = 9.
+Proof. repeat split; vm_compute; reflexivity. Qed.
+Example kold12_ranked : ranked kold12.
+Proof.
+  destruct kold12_graph as ((H0 & H1 & H2 & H3 & H4) & (W0 & W1 & W2) & Hf).
+  exists (fun t => match t with 0 => 3 | 1 => 2 | 2 => 1 | _ => 0 end). split.
+  - intros w t (l & Hl & Hw). destruct t as [|[|[|[|[|t]]]]].
+    + rewrite H0 in Hl. destruct Hl as [<-|[]]. rewrite W2 in Hw. destruct Hw as [<-|[<-|[]]]; lia.
+    + rewrite H1 in Hl. destruct Hl as [<-|[]]. rewrite W1 in Hw. destruct Hw as [<-|[]]; lia.
+    + rewrite H2 in Hl. destruct Hl as [<-|[]]. rewrite W0 in Hw. destruct Hw as [<-|[]]; lia.
+    + rewrite H3 in Hl. destruct Hl.
+    + rewrite H4 in Hl. destruct Hl.
+    + rewrite Tables.gett_oob in Hl by (vm_compute; lia). destruct Hl.
+  - intros t. rewrite Hf. destruct t as [|[|[|t]]]; lia.
+Qed.
+
+Example kold_facts :
+  (* after T's arrival with the old text: everybody on the chain has effective priority -5, but
+     only the ready queue was touched - the keys of locks 1 and 2 are the old ones *)
+  arr (lpq (getl kold11 1)) = [mkE 7%Q 0 4] /\ arr (lpq (getl kold11 2)) = [mkE 5%Q 0 3] /\
+  map (fun t => Qred (effective_priority kold11 t)) [0; 1; 2; 3] = [(-5)%Q; (-5)%Q; (-5)%Q; (-5)%Q] /\
+  (* after W2's arrival: W2 queued with key 3, in front of O1's stale 5; both entries live *)
+  arr (lpq (getl kold12 2)) = [mkE 3%Q 1 8; mkE 5%Q 0 3] /\ lwt (getl kold12 2) = [(3, 1); (8, 4)] /\
+  fdone kold12 3 = false /\ fdone kold12 8 = false /\
+  map (fun t => Qred (effective_priority kold12 t)) [1; 4] = [(-5)%Q; 3%Q] /\
+  map (fun t => Qred (wprio kold12 t)) [1; 4] = [(-5)%Q; 3%Q] /\
+  lowner (getl kold12 2) = Some 0 /\
+  ~ keyed kold12 2 /\
+  (* O1's entry is `before` W2's (strictly more urgent) *)
+  before kold12 2 (mkE 5%Q 0 3) (mkE 3%Q 1 8).
+Proof.
+  do 10 (split; [vm_compute; reflexivity|]). split.
+  - intros K. specialize (K (mkE 5%Q 0 3)).
+    assert (H : (5 == wprio kold12 (entry_task (getl kold12 2) (mkE 5%Q 0 3)))%Q).
+    { apply K; [rewrite kold12_arr2; simpl; tauto|vm_compute; reflexivity]. }
+    vm_compute in H. discriminate.
+  - left; vm_compute; reflexivity.
+Qed.
+
+(* O2 releases lock 2: W2 (effective priority 3, key 3) gets the lock although the live waiter
+   O1 (effective priority -5, stale key 5) is `before` it *)
+Example kold_handover :
+  release_p kold12 0 2 = (wake_up_first_p (pre_wake kold12 0 2) 2, RVal 0) /\
+  map (fun t => Qred (wprio (pre_wake kold12 0 2) t)) [1; 4] = [(-5)%Q; 3%Q] /\
+  before (pre_wake kold12 0 2) 2 (mkE 5%Q 0 3) (mkE 3%Q 1 8) /\
+  map (fun f => fstate_ (getf (wake_up_first_p (pre_wake kold12 0 2) 2) f)) [3; 8] = [FPending; FResult 1].
+Proof.
+  split; [apply release_p_wake; vm_compute; reflexivity|].
+  split; [vm_compute; reflexivity|]. split; [left; vm_compute; reflexivity|].
+  vm_compute; reflexivity.
+Qed.
+
+(* the current text applied to the same state kpre: U's entry in lock 1 and O1's entry in lock 2
+   are re-keyed to -5, as in the run (kst11) *)
+Example knew_facts :
+  arr (lpq (getl knew11 1)) = [mkE (-5)%Q 0 4] /\ arr (lpq (getl knew11 2)) = [mkE (-5)%Q 0 3] /\
+  map (fun t => Qred (effective_priority knew11 t)) [0; 1; 2; 3] = [(-5)%Q; (-5)%Q; (-5)%Q; (-5)%Q] /\
+  map (fun l => arr (lpq (getl knew11 l))) [0; 1; 2] = map (fun l => arr (lpq (getl kst11 l))) [0; 1; 2].
+Proof. repeat split; vm_compute; reflexivity. Qed.
+
+Print Assumptions kold_facts.
+Print Assumptions kold_handover.
+Print Assumptions kpre_reachable_ord.
